@@ -57,6 +57,51 @@ def run_c05(ctx):
     return l1_both(ctx)
 
 
+def run_c14(ctx):
+    res = l1_both(ctx, release_scale_quick="1.0")
+    import l2
+    l2.c14_transport(ctx, res)
+    return res
+
+
+def run_c20(ctx):
+    return l1_both(ctx, release_scale_quick="1.0", miri_shards=0)
+
+
+def run_c06(ctx):
+    import l2
+    res = Result()
+    return l2.c06(ctx, res)
+
+
+def run_c07(ctx):
+    import l2
+    res = Result()
+    return l2.c07(ctx, res)
+
+
+def run_c08(ctx):
+    import l2
+    res = Result()
+    return l2.c08(ctx, res)
+
+
+def run_c18(ctx):
+    import l2
+    res = l1_both(ctx)
+    l2.c18_cli(ctx, res)
+    return res
+
+
+def run_c19(ctx):
+    import l2
+    res = l1_both(ctx, miri_shards=8)
+    cp = l2.corpus(ctx)
+    for h in range(1 if not ctx.thorough() else 10):
+        l2.watch_history(ctx, res, cp, "C19", 100 + h)
+    return res
+
+
 def run_dbg(ctx):
     return l1_both(ctx)
 
@@ -126,6 +171,96 @@ PROPS = {
         "technique": "runtime monitoring: counter invariant over tick/fetch/command hooks with logical fuel",
         "rule": "case = (program ending outside user space / at 0xFFFF / on HALT, script of resuming commands, EOF); all sessions are non-trivial; distinct = hash of source and script",
         "assumptions": DBG_ASSUME,
+    },
+    "C14": {
+        "run": run_c14,
+        "level": "exploration",
+        "design_ref": "DESIGN.md section 4 C14",
+        "level_text": "Differential runtime monitor of the command parser (hook parse_command, under catch_unwind) against an independent matcher for the documented grammar: exhaustive over all argument strings up to length 4 (quick) / 5 (thorough) of a 16-character alphabet of signs, radix prefixes, digits, hex letters, '^', 'r', '_' in six argument contexts; numeric boundary families around 2^15, 2^16, 2^31 in every radix and sign position; every command name, alias and misspelling in random letter case with too few / too many arguments; random longer and multi-byte strings; and a through-the-machine part where the parsed value is re-observed by the effect of move/goto/break add. Transport independence (--command vs stdin vs split, ';' vs newline) is checked on the unmodified CLI.",
+        "level_note": "Exhaustive only inside the alphabet/length bound. Bare `print` (help.txt documents a default, the implementation requires the argument) is accepted either way.",
+        "technique": "runtime monitoring: differential oracle (reference grammar matcher) over the hooked parser, bounded-exhaustive enumeration; effect-level re-observation through debugger sessions; CLI transport comparison",
+        "rule": "case = chunk of 2048 enumerated argument strings x 6 contexts (evaluations counts lines), or a boundary / names / random / through-the-machine batch; non-trivial = chunk containing at least one accepted line or integer-class rejection",
+        "assumptions": DBG_ASSUME,
+    },
+    "C15": {
+        "run": run_dbg,
+        "level": "exploration",
+        "design_ref": "DESIGN.md section 4 C15",
+        "level_text": "Transition monitor: for every `eval <instruction>` in generated sessions (every register/immediate/base+offset form, label operands defined before and after the PC at every PC of the program, jumps, output traps, stack instructions) the snapshot at the prompt before is the start state and the snapshot after must equal the reference VM's execution of the ISA encoding with PC as it stands and labels denoting their absolute address; refused classes (BR*, RTI, HALT, unknown traps) and malformed texts (missing, surplus, wrong-kind operands, directives, two instructions, undefined labels, labels out of reach) must leave everything unchanged and the session alive.",
+        "level_note": "Literal PC offsets and link values (R7 / pushed return address) are not generated / compared, as the property leaves them open.",
+        "technique": "runtime monitoring: before/after prompt snapshots compared with a reference VM step (transition oracle)",
+        "rule": "case = one session (evaluations counts eval commands); distinct = hash of source and script",
+        "assumptions": DBG_ASSUME,
+    },
+    "C17": {
+        "run": run_dbg,
+        "level": "exploration",
+        "design_ref": "DESIGN.md section 4 C17",
+        "level_text": "Runtime monitor over generated programs in randomised layouts: `assembly <addr>` for every address of the image and two beyond each end (minimal mode, captured through the debugger-output tee) must print exactly the source text 'mnemonic/directive through last operand' recorded by the renderer for the statement that produced that word (nothing for non-statement addresses); `goto <label+-k>` and `print <label+-k>` must resolve to the address the reference assembler gives the labelled statement.",
+        "level_note": "Label names which the command grammar reads as integers/registers are not used as locations.",
+        "technique": "runtime monitoring: captured debugger output and prompt snapshots compared with the renderer's recorded spans and the reference assembler's symbol addresses",
+        "rule": "case = one program (evaluations counts queries); distinct = hash of the source text",
+        "assumptions": DBG_ASSUME,
+    },
+    "C20": {
+        "run": run_c20,
+        "level": "exploration",
+        "design_ref": "DESIGN.md section 4 C20",
+        "level_text": "Lockstep runtime monitor of the real line editor (constructed without TTY through the hook, fed from a key queue) against a plain reference editor: after every key the edited line, cursor and history focus must agree and the cursor must lie within the line; submitted lines and their ';' splitting must agree; panics are caught and located. Exhaustive over all key sequences up to length 5 (quick) / 6 (thorough) of a 16-key alphabet (ASCII, space, punctuation, ';', a 2-byte and a 4-byte character, every editing key) from an empty and a two-entry history, plus random sequences of 20-200 keys.",
+        "level_note": "Ctrl+Right with no next word accepts both Vim-style answers (stay on the first trailing blank / go to end of line).",
+        "technique": "runtime monitoring: online reference-model comparison after every key, bounded-exhaustive key sequences; Miri on a reduced enumeration (thorough)",
+        "rule": "case = chunk of 2048 key sequences (evaluations counts sequences); non-trivial = chunk with a sequence containing both an edit and a cursor movement",
+        "assumptions": COMMON_ASSUMPTIONS,
+    },
+    "C06": {
+        "run": run_c06,
+        "level": "exploration",
+        "design_ref": "DESIGN.md section 4 C06",
+        "level_text": "Black-box runtime monitor on the unmodified CLI: generated programs at random origins are compiled (to .lc3 and .obj names) and the object bytes compared with the big-endian reference image (length 2(n+1)); running the object must give the same stdout and exit status as running the source; the loader predicate (non-empty, even length, origin + n <= 0xFFFF) is checked on byte strings of every small length, random lengths of both parities and images ending exactly at, one below and one above the top of memory, observing exit status, 'Running' banner and crashes.",
+        "level_note": "Observation is limited to what the CLI exposes (files, stdout, stderr, exit status); the in-memory load state is C03's.",
+        "technique": "runtime monitoring (black box): file-content and exit-status observers on the real binary vs reference encoder / loader predicate",
+        "rule": "case = one compile+run round trip or one byte string offered to the loader; distinct = distinct sources / byte strings",
+        "assumptions": COMMON_ASSUMPTIONS,
+    },
+    "C07": {
+        "run": run_c07,
+        "level": "exploration",
+        "design_ref": "DESIGN.md section 4 C07",
+        "level_text": "Black-box agreement monitor: for each source and feature setting `lace check`, `lace compile` and `lace run` are run on the unmodified binary and their outcome classes (success / diagnostic / crash) compared pairwise; sources include label references out of range for every PC-relative form at every statement position, sources using the stack mnemonics with and without the flag, operand errors and valid programs. A `lace watch` process is driven through a history of rewrites (inotify) and each re-check compared with a fresh `lace check`.",
+        "level_note": "No reference model is needed: the oracle is agreement between the three commands.",
+        "technique": "runtime monitoring (black box): differential exit-status/stdout observers across CLI subcommands, inotify-driven watch histories",
+        "rule": "case = (source, feature flag) run through check, compile and run; distinct = distinct cases",
+        "assumptions": COMMON_ASSUMPTIONS,
+    },
+    "C08": {
+        "run": run_c08,
+        "level": "fault_enumeration",
+        "design_ref": "DESIGN.md section 4 C08",
+        "level_text": "Fault enumeration on the unmodified CLI with a file-system observer (destination snapshot before/after: existence, bytes) and strace: emission failure at every statement position 0..n-1 of programs with n = 1..6 (quick) / 1..12, 40 (thorough) statements, destination = /dev/full, missing parent directory, destination is a directory, parent is not a directory, and ENOSPC/EIO injected by strace on the k-th write() of a successful run; each with the destination pre-existing (sentinel contents) and absent. Exit 0 must mean a complete, correct file; non-zero must leave the destination untouched.",
+        "level_note": "For injected write errors clause 1 (no swallowed error) is asserted; a partial regular file left behind by a mid-write failure is reported under its own key.",
+        "technique": "fault injection + runtime monitoring: destination-file observer and strace syscall fault injection on the real binary",
+        "rule": "case = (program, fault kind/position, destination pre-existing or absent); distinct = distinct cases; all are non-trivial",
+        "assumptions": COMMON_ASSUMPTIONS + ["strace's inject counts every write() of the process, including the banner lines on stdout"],
+    },
+    "C18": {
+        "run": run_c18,
+        "level": "exploration",
+        "design_ref": "DESIGN.md section 4 C18",
+        "level_text": "Paired-configuration runtime monitor: every generated case runs on two fresh threads (flag off / on). Sources using push/pop/call/rets (any letter case, also in label position) must be rejected with a diagnostic naming the feature when off and assemble to the reference image when on; sources using none of them must give the identical reference image under both values; raw images are run under both values: a fetched 0xD word must end the run with exit 1 (nothing executed after it) when off and execute when on, and images that never fetch one must behave identically (trace, output, final state). The CLI layer repeats compile/run with and without `-f stack` on the unmodified binary.",
+        "level_note": "Trusted: reference encoder for the expected images.",
+        "technique": "runtime monitoring: paired-configuration differential runs (in-process, hooked exits and fetch trace) + CLI exit-status/file observers",
+        "rule": "case = one source or one raw image run under both flag values; distinct = hash of source / image",
+        "assumptions": COMMON_ASSUMPTIONS,
+    },
+    "C19": {
+        "run": run_c19,
+        "level": "exploration",
+        "design_ref": "DESIGN.md section 4 C19",
+        "level_text": "History monitor: sequences of 2-8 sources (valid, failing in the lexer, after labels were recorded, in backpatch, in emit; sharing label names with the predecessor; repeats) are assembled on one thread with reset_state() and StaticSource::new/src/reclaim exactly as the watch closure does; every result (image, origin, breakpoints, or the rendered diagnostic and its spans) must equal the result on a fresh thread. `lace watch` histories on the unmodified binary compare each re-check with a fresh `lace check`. Thorough: the same histories under Miri (use-after-reclaim, double free).",
+        "level_note": "Diagnostics are compared by message, spans and full rendering.",
+        "technique": "runtime monitoring: same-thread history vs fresh-thread differential; inotify-driven watch process; Miri",
+        "rule": "case = one history (evaluations counts sources); distinct = hash of the history",
+        "assumptions": COMMON_ASSUMPTIONS,
     },
     "C01": {
         "run": run_c01,
